@@ -132,6 +132,71 @@ def models(prop, tier):
 
 # =================================================================== typed values
 # Mirrors the value shapes documented in specs/TBinaryWire.tla.
+# Long texts / lists / byte streams travel in run form (see specs/TBinaryWire.tla): `r` = [{'p': pattern,
+# 'n': count}, ...] instead of `v`.  The compression is lossless and purely syntactic; the oracle works on it.
+RUN_MIN = 2048          # sequences shorter than this stay plain
+
+
+def to_runs(seq, key=None):
+  """greedy run-length form of a sequence: periodic stretches (period 1..4) of at least 64 items become one
+  run, everything between them literal runs (n = 1)"""
+  seq = list(seq)
+  ks = seq if key is None else [key(x) for x in seq]
+  out, lit, i, n = [], [], 0, len(seq)
+
+  def reps_at(i, per):
+    # number of whole repetitions of ks[i:i+per] starting at i (galloping, slice comparisons)
+    pat = ks[i:i + per]
+    if len(pat) < per or ks[i:i + 64] != (pat * 64)[:min(64, n - i)] or n - i < 64:
+      return 0
+    lo, hi = 64 // per, (n - i) // per
+    step = lo
+    while lo < hi:
+      k = min(hi, lo + step)
+      if ks[i + lo * per:i + k * per] == pat * (k - lo):
+        lo, step = k, step * 2
+      elif step == 1:
+        break
+      else:
+        step = max(1, step // 2)
+    return lo
+
+  while i < n:
+    best = None
+    for per in (1, 2, 3, 4):
+      reps = reps_at(i, per)
+      if reps * per >= 64:
+        best = (reps, per)
+        break
+    if best is None:
+      lit.append(seq[i])
+      i += 1
+      continue
+    if lit:
+      out.append({'p': lit, 'n': 1})
+      lit = []
+    out.append({'p': seq[i:i + best[1]], 'n': best[0]})
+    i += best[0] * best[1]
+  if lit:
+    out.append({'p': lit, 'n': 1})
+  return out
+
+
+def from_runs(runs):
+  out = []
+  for r in runs:
+    out.extend(list(r['p']) * r['n'])
+  return out
+
+
+def text_tv(text):
+  """typed value of a Python str (run form when long)"""
+  cps = [ord(c) for c in text]
+  if len(cps) < RUN_MIN:
+    return {'t': 'str', 'v': cps}
+  return {'t': 'str', 'v': [], 'r': to_runs(cps)}
+
+
 def tv_none():
   return {'t': 'none'}
 
@@ -157,8 +222,12 @@ def from_tv(tv):
   if t == 'i64':
     return struct.unpack('!q', bytes(tv['v']))[0]
   if t == 'str':
+    if 'r' in tv:
+      return ''.join(''.join(chr(c) for c in r['p']) * r['n'] for r in tv['r'])
     return ''.join(chr(c) for c in tv['v'])
   if t == 'list':
+    if 'r' in tv:
+      return [from_tv(x) for x in from_runs(tv['r'])]
     return [from_tv(x) for x in tv['v']]
   if t == 'struct':
     cls = _struct_classes()[tv['n']]
@@ -201,12 +270,15 @@ def _to_tv(val, ttype, extra):
         raise _Opaque()
     if not isinstance(val, str):
       raise _Opaque()
-    return {'t': 'str', 'v': [ord(c) for c in val]}
+    return text_tv(val)
   if k == 'list':
     if not isinstance(val, (list, tuple)):
       raise _Opaque()
     et, eextra = extra[0], extra[1]
-    return {'t': 'list', 'et': _TT[et], 'v': [_to_tv(x, et, eextra) for x in val]}
+    elems = [_to_tv(x, et, eextra) for x in val]
+    if len(elems) < RUN_MIN:
+      return {'t': 'list', 'et': _TT[et], 'v': elems}
+    return {'t': 'list', 'et': _TT[et], 'v': [], 'r': to_runs(elems, key=common.canon)}
   if k == 'struct':
     cls = extra[0]
     if not isinstance(val, cls):
@@ -252,7 +324,11 @@ def _ifaces():
   from harness.gen_py_x.base import Base
   from harness.gen_py_x.derived import Derived
   from harness.gen_py_x.other import Other
-  return {'hello': Hello, 'base': Base, 'derived': Derived, 'other': Other}
+  from harness.gen_py_x.deep import Deep
+  from harness.gen_py_x.app import DerivedApi
+  # deep: Deep extends Derived extends Base (three modules); derivedapi: an application-side Python subclass of
+  # Derived.Iface handed to the client builder (its own module has no args/result classes at all)
+  return {'hello': Hello, 'base': Base, 'derived': Derived, 'other': Other, 'deep': Deep, 'derivedapi': DerivedApi}
 
 
 def mkey(iface, m):
@@ -279,6 +355,12 @@ METHODS['derived'] = dict(METHODS['base'])
 METHODS['derived'].update({
   'twice': dict(args=[('x', 'i32')], ret='i32', exc=[]),
   'drop': dict(args=[('key', 'str')], ret=None, exc=['Boom']),
+})
+METHODS['derivedapi'] = dict(METHODS['derived'])
+METHODS['deep'] = dict(METHODS['derived'])
+METHODS['deep'].update({
+  'label': dict(args=[('s', 'str')], ret='str', exc=[]),
+  'names': dict(args=[('n', 'i32'), ('prefix', 'str')], ret=('list', 'str'), exc=[]),
 })
 # same method names as above, different argument lists and result types (gen_py_x/other)
 METHODS['other'] = {
@@ -495,6 +577,84 @@ def _gen_room(rng, size):
   return max(4, int(size * rng.choice([0.05, 0.2, 0.5, 0.8, 0.95, 1.0])))
 
 
+def _reply_event(m, run, ref, same):
+  stream = run['stream']
+  e = {'e': 'Reply', 'm': m, 'stream': list(stream) if len(stream) < RUN_MIN else [],
+       'same_stream': 1 if same else 0,
+       'chunks': [k for (_r, k) in run['reads'][:64]], 'out': run['out'], 'ref': ref['out']}
+  if len(stream) >= RUN_MIN:
+    e['streamr'] = to_runs(stream)
+  return e
+
+
+# ---- large replies: texts around 1 MiB of UTF-8, lists around 64 Ki elements, exceptions carrying such texts
+MIB = 1 << 20
+
+
+def _run_text(parts):
+  """typed text value in run form from [(code points, count), ...]"""
+  return {'t': 'str', 'v': [], 'r': [{'p': list(p), 'n': n} for (p, n) in parts if n > 0]}
+
+
+def _run_list(elem, n):
+  return {'t': 'list', 'et': 'str', 'v': [], 'r': [{'p': [elem], 'n': n}]}
+
+
+def _big_replies():
+  """catalogue: (label, iface, method, server behaviour); bytes != characters for the non-ASCII ones"""
+  a, ue, zh = [0x61], [0xfc], [0x4e2d]
+  texts = [
+    ('ascii-1MiB-1', _run_text([(a, MIB - 1)])), ('ascii-1MiB', _run_text([(a, MIB)])),
+    ('ascii-1MiB+1', _run_text([(a, MIB + 1)])), ('ascii-3MiB', _run_text([([0x61, 0x62, 0x63], MIB)])),
+    ('2byte-1MiB', _run_text([(ue, MIB // 2)])), ('2byte-1MiB-1', _run_text([(a, 1), (ue, MIB // 2 - 1)])),
+    ('2byte-1MiB+1', _run_text([(ue, MIB // 2), (a, 1)])), ('2byte-1.2MB', _run_text([(ue, 600000)])),
+    ('3byte-1MiB', _run_text([(zh, 349525), (a, 1)])), ('3byte-1MiB+2', _run_text([(zh, 349526)])),
+    ('mixed-1MiB+1', _run_text([([0x61, 0xfc, 0x4e2d, 0x1f600], 104857), ([0x62], 7)])),
+  ]
+  out = []
+  rets = [('hello', 'hi'), ('base', 'echo'), ('deep', 'label'), ('other', 'add'), ('derived', 'echo'), ('other', 'ping')]
+  for i, (lab, tv) in enumerate(texts):
+    iface, m = rets[i % len(rets)]
+    out.append(('text/' + lab, iface, m, {'do': 'return', 'v': tv}))
+  lists = [('list-65535', 65535, []), ('list-65536', 65536, []), ('list-65537', 65537, []),
+           ('list-65536x', 65536, [0x78]), ('list-65537x', 65537, [0xfc, 0x79]), ('list-200000', 200000, [])]
+  for i, (lab, n, cps) in enumerate(lists):
+    iface, m = [('other', 'count'), ('deep', 'names')][i % 2]
+    out.append(('list/' + lab, iface, m, {'do': 'return', 'v': _run_list({'t': 'str', 'v': cps}, n)}))
+  boom = lambda tv: {'t': 'struct', 'n': 'Boom', 'f': [{'id': 1, 'v': tv}, {'id': 2, 'v': {'t': 'i32', 'v': 7}}]}
+  out.append(('exc/boom-1MiB', 'base', 'put', {'do': 'raise', 'v': boom(_run_text([(a, MIB)]))}))
+  out.append(('exc/boom-1MiB+1', 'derived', 'drop', {'do': 'raise', 'v': boom(_run_text([(a, MIB + 1)]))}))
+  out.append(('exc/boom-2byte-1MiB+1', 'deep', 'reset', {'do': 'raise', 'v': boom(_run_text([(ue, MIB // 2), (a, 1)]))}))
+  out.append(('exc/app-1MiB+1', 'base', 'ping', {'do': 'appexc', 'type': 6, 'msg': [], 'msgtv': _run_text([(a, MIB + 1)])}))
+  out.append(('exc/app-1MiB', 'hello', 'hi', {'do': 'appexc', 'type': 0, 'msg': [], 'msgtv': _run_text([(ue, MIB // 2)])}))
+  item = {'t': 'struct', 'n': 'Item', 'f': [{'id': 1, 'v': {'t': 'i32', 'v': 1}}, {'id': 2, 'v': _run_text([(a, MIB + 1)])},
+                                            {'id': 4, 'v': _run_list({'t': 'str', 'v': [0x7a]}, 65537)}]}
+  out.append(('struct/item-1MiB+1-65537', 'base', 'put', {'do': 'return', 'v': item}))
+  return out
+
+
+_BIG_ALWAYS = ['text/ascii-1MiB', 'text/ascii-1MiB+1', 'text/2byte-1MiB+1', 'list/list-65536', 'list/list-65537',
+               'exc/boom-1MiB+1']
+_BIG_CHUNKS = [[4, 0], [1, 1, 1, 1, 1000, 0], [2, 2, 65536, 1, 0], [4, 524288, 0], [3, 1, 12, 1, 0], [0]]
+
+
+def _gen_big_calls(rng, tier):
+  cat = _big_replies()
+  if tier == 'quick':
+    rest = [c for c in cat if c[0] not in _BIG_ALWAYS]
+    rng.shuffle(rest)
+    cat = [c for c in cat if c[0] in _BIG_ALWAYS] + rest[:2]
+  out = []
+  for (lab, iface, m, srv) in cat:
+    c = _gen_call(rng, iface, m)
+    c['srv'], c['cut'], c['proto'] = srv, -1, 'accel'          # the default protocol factory of the builder
+    c['stack'] = 'min' if rng.random() < 0.6 else 'full'
+    c['chunks'] = rng.choice(_BIG_CHUNKS)
+    c['big'] = lab
+    out.append(c)
+  return out
+
+
 def _wire_key(iface, call):
   """(method, set arguments by name): equal keys = equal request payloads"""
   names = [n for (n, _t) in METHODS[iface][call['m']]['args']]
@@ -656,6 +816,22 @@ def cases(prop, tier, seed):
         grp['rooms'] = rooms
       groups.append(grp)
     out.append({'kind': 'cstall', 'iface': iface, 'groups': groups, 'tx': 1})
+  # every level of deeper interface hierarchies: Deep extends Derived extends Base, and an application-side
+  # subclass of Derived.Iface (methods of the interface itself, of its parent and of its grandparent)
+  ndeep = 16 if tier == 'quick' else 240
+  for b in range(ndeep):
+    iface = ['deep', 'derivedapi'][b % 2]
+    own = {'deep': ['label', 'names'], 'derivedapi': []}[iface]
+    levels = [own, ['twice', 'drop'], sorted(METHODS['base'])]
+    calls = []
+    for j in range(9):
+      ms = levels[j % 3] or levels[2]
+      calls.append(_gen_call(rng, iface, rng.choice(ms)))
+    rng.shuffle(calls)
+    out.append({'kind': 'rpc', 'calls': calls, 'reuse': b % 2, 'tx': 1})
+  # large replies through the default protocol factory of the builder: one call per script
+  for c in _gen_big_calls(rng, tier):
+    out.append({'kind': 'rpc', 'calls': [c], 'reuse': 0, 'tx': 1, 'big': c['big']})
   # spread the (larger) partial-send traces evenly over the validation batches
   plain, txs = out[:nplain], out[nplain:]
   stride = max(1, len(plain) // max(1, len(txs)))
@@ -925,6 +1101,8 @@ class _Handler(object):
       if do == 'raise':
         raise from_tv(srv['v'])
       if do == 'appexc':
+        if 'msgtv' in srv:
+          raise TApplicationException(srv['type'], from_tv(srv['msgtv']))
         raise TApplicationException(srv['type'], ''.join(chr(c) for c in srv['msg']))
       if do == 'crash':
         raise RuntimeError('handler crashed')
@@ -1170,9 +1348,8 @@ def _run_rpc(script):
                'bytes': list(ref['sent']), 'tx': ref['tx'], 'srv': srv})
     oneway = bool(METHODS[call['iface']][call['m']].get('oneway'))
     if not oneway and ref['stream'] is not None and run['stream'] is not None:
-      ev.append({'e': 'Reply', 'm': mkey(call['iface'], call['m']), 'stream': list(run['stream']),
-                 'same_stream': 1 if run['stream'] == ref['stream'] and run['sent'] == ref['sent'] else 0,
-                 'chunks': [k for (_r, k) in run['reads']], 'out': run['out'], 'ref': ref['out']})
+      ev.append(_reply_event(mkey(call['iface'], call['m']), run, ref,
+                             run['stream'] == ref['stream'] and run['sent'] == ref['sent']))
     meta.append({'iface': call['iface'], 'srv': call['srv']['do'], 'form': call['form'], 'stack': call['stack'],
                  'proto': call.get('proto', 'accel'), 'smax': call.get('smax')})
   return {'cfg': {'kind': 'rpc'}, 'ev': ev, 'meta': meta, 'errors': [list(e[1:3]) for e in loop.errors][:3]}
